@@ -146,27 +146,17 @@ Section MonitorSound.
   Definition exp_records (kvs : list (str * jval)) (ms : list str) : list erec :=
     flat_map (fun m => match jlookup m kvs with Some (JString v) => [ERec (exp_ts kvs) m v] | _ => [] end) ms.
 
-  Lemma json_records_realise ms kvs : json_records rfc3339 ms kvs = map realise (exp_records kvs ms).
+  Lemma json_records_realise ms kvs : json_records rfc3339 ms kvs = map realise (exp_records kvs (dedup [] ms)).
   Proof.
     unfold json_records, exp_records. apply flat_map_map_comm. intros m _.
     destruct (jlookup m kvs) as [[v|repr|]|]; try reflexivity.
     cbn [map]. unfold realise. cbn [e_ts e_name e_value]. now rewrite json_timestamp_realise.
   Qed.
 
-  Lemma dedup_nodup ms : forall seen, NoDup ms -> (forall m, In m ms -> ~ In m seen) -> dedup seen ms = ms.
-  Proof.
-    induction ms as [|m r IH]; intros seen ND Hd; [reflexivity|]. cbn [dedup].
-    destruct (mem m seen) eqn:M.
-    - apply mem_In in M. exfalso. exact (Hd m (or_introl eq_refl) M).
-    - inversion ND as [|? ? Hm Hr]; subst. rewrite IH; [reflexivity|exact Hr|].
-      intros x Ix [<-|Is]; [contradiction|]. exact (Hd x (or_intror Ix) Is).
-  Qed.
-
   Lemma spec_json_line_realise ms l :
-    NoDup ms -> spec_json_line rfc3339 decode ms l = map realise (exp_line ms l).
+    spec_json_line rfc3339 decode ms l = map realise (exp_line ms l).
   Proof.
-    intro ND. unfold spec_json_line, C13.exp_line. destruct (decode l) as [|kvs]; [reflexivity|].
-    rewrite (dedup_nodup ms [] ND); [|intros ? _ []]. apply json_records_realise.
+    unfold spec_json_line, C13.exp_line. destruct (decode l) as [|kvs]; [reflexivity|]. apply json_records_realise.
   Qed.
 
   Lemma reports_realise obj es : reports obj (map realise es) = existsb (fun e => str_eqb (e_name e) obj) es.
@@ -249,10 +239,10 @@ Section MonitorSound.
   Qed.
 
   Lemma monitor_json_model ms content :
-    NoDup ms -> integral_timestamps (split_lines content) ->
+    integral_timestamps (split_lines content) ->
     monitor_json rfc3339 decode ms content (attach_result (collect JSON ms [] content)) = true.
   Proof.
-    intros ND Hint. unfold monitor_json. destruct ms as [|obj rest] eqn:Ems; [reflexivity|]. rewrite <- Ems in *.
+    intros Hint. unfold monitor_json. destruct ms as [|obj rest] eqn:Ems; [reflexivity|]. rewrite <- Ems in *.
     assert (Hms : ms <> []) by (rewrite Ems; discriminate).
     destruct (collect_json_total filt default_filter compiles matches rfc3339 decode ms [] content Hms) as [[Hb Hc]|[Hb Hc]];
       rewrite Hb, Hc; [|reflexivity].
@@ -277,12 +267,12 @@ Section MonitorSound.
   (* ---------------------------------------------------------------- all formats *)
   Lemma monitor_model fmt ms fs content :
     groups_substr filt matches ->
-    (fmt = JSON -> NoDup ms /\ integral_timestamps (split_lines content)) ->
+    (fmt = JSON -> integral_timestamps (split_lines content)) ->
     monitor fmt ms fs content (attach_result (collect fmt ms fs content)) = true.
   Proof.
     intros Hsub Hj. destruct fmt; cbn [C13.monitor].
     - now apply monitor_text_model.
-    - destruct (Hj eq_refl) as [ND Hint]. exact (monitor_json_model ms content ND Hint).
+    - exact (monitor_json_model ms content (Hj eq_refl)).
     - reflexivity.
   Qed.
 End MonitorSound.
@@ -328,14 +318,57 @@ Proof.
   repeat split; vm_compute; reflexivity.
 Qed.
 
-(* a tracked name listed twice is reported twice from one JSON line *)
-Lemma json_dup_refuted :
-  exists (decode : str -> jline) ms content r,
-    length (split_lines content) = 1%nat /\
-    collect unit tt (fun _ => true) (fun _ _ => []) (fun _ => false) decode JSON ms [] content = Ok r /\ ~ NoDup r.
+(* ------------------------------------------------------------------ F6, universally: every non-negative numeral with
+   1..8 fractional digits and a non-zero fraction is converted to a wrong instant *)
+
+Lemma split_dot_app a f : ~ In dot a -> split_dot (a ++ dot :: f) = (a, Some f).
 Proof.
-  exists (fun _ => JObj [(B "acc", JString (B "0.9")); (B "loss", JString (B "0.3"))]),
-         [B "loss"; B "acc"; B "acc"], (B "{""loss"": ""0.3"", ""acc"": ""0.9""}").
-  eexists. split; [vm_compute; reflexivity|]. split; [vm_compute; reflexivity|].
-  intro H. inversion H as [|? ? _ H1]. inversion H1 as [|? ? N _]. apply N. now left.
+  induction a as [|c a IH]; intro N; cbn [app split_dot].
+  - now rewrite Ascii.eqb_refl.
+  - destruct (Ascii.eqb c dot) eqn:E.
+    + apply Ascii.eqb_eq in E. subst. exfalso. apply N. now left.
+    + rewrite IH; [reflexivity|]. intro I. apply N. now right.
+Qed.
+
+Lemma parse_digits_nonneg s : forall acc v, 0 <= acc -> parse_digits acc s = Some v -> 0 <= v.
+Proof.
+  induction s as [|c r IH]; intros acc v A H; cbn [parse_digits] in H.
+  - now injection H as <-.
+  - destruct (digit_val c) as [d|] eqn:D; [|discriminate]. apply digit_val_byte in D. destruct D as [_ [_ [_ D]]].
+    assert (A' : 0 <= acc * 10 + d) by lia. exact (IH _ _ A' H).
+Qed.
+
+Lemma parse_signed_digits s v : s <> [] -> parse_digits 0 s = Some v -> parse_signed s = Some v.
+Proof.
+  intros NE P. destruct s as [|c r]; [contradiction|]. destruct (parse_digits_head _ _ _ _ P) as [N43 N45].
+  unfold parse_signed. rewrite N43, N45. now rewrite P.
+Qed.
+
+Lemma epoch_fraction_wrong ip fp i f :
+  ip <> [] -> fp <> [] -> parse_digits 0 ip = Some i -> parse_digits 0 fp = Some f ->
+  in_int64 i = true -> in_int64 f = true ->
+  let k := length fp in
+  let n := Numeral (i * 10 ^ Z.of_nat k + f) k i in
+  read_numeral (ip ++ dot :: fp) = Some n /\
+  epoch_instant (ip ++ dot :: fp) = Some (i * 10 ^ 9 + f) /\
+  (0 < f -> (k < 9)%nat -> same_instant n (i * 10 ^ 9 + f) = false).
+Proof.
+  intros NEi NEf Pi Pf Ri Rf k n.
+  pose proof (parse_digits_no_dot ip 0 i Pi) as Ni. pose proof (parse_digits_no_dot fp 0 f Pf) as Nf.
+  split; [|split].
+  - unfold read_numeral. destruct ip as [|c r]; [contradiction|].
+    destruct (parse_digits_head _ _ _ _ Pi) as [_ N45]. cbn [app]. rewrite N45.
+    change (c :: r ++ dot :: fp) with ((c :: r) ++ dot :: fp). rewrite (split_dot_app _ _ Ni), Pi.
+    destruct fp as [|f0 f']; [contradiction|]. now rewrite Pf.
+  - apply epoch_fraction; try assumption.
+    + unfold parse_int64. now rewrite (parse_signed_digits ip i NEi Pi), Ri.
+    + unfold parse_int64. now rewrite (parse_signed_digits fp f NEf Pf), Rf.
+  - intros Fpos K. unfold same_instant, n. cbn [scale num]. apply Z.ltb_ge.
+    assert (P : 10 ^ Z.of_nat k * 10 <= 10 ^ 9).
+    { replace (10 ^ Z.of_nat k * 10) with (10 ^ (Z.of_nat k + 1)) by (rewrite Z.pow_add_r; lia).
+      apply Z.pow_le_mono_r; lia. }
+    assert (Q : 0 < 10 ^ Z.of_nat k) by (apply Z.pow_pos_nonneg; lia).
+    replace ((i * 10 ^ 9 + f) * 10 ^ Z.of_nat k - (i * 10 ^ Z.of_nat k + f) * 10 ^ 9)
+      with (- (f * (10 ^ 9 - 10 ^ Z.of_nat k))) by ring.
+    rewrite Z.abs_opp, Z.abs_eq by nia. nia.
 Qed.
